@@ -79,6 +79,8 @@ func c16Contexts() []string {
 		bn.BDelKey+"(obj, %s); "+P+" obj;",
 		P+" %s;", P+" [%s];", P+" {k: %s};", P+" [[%s], {z: %s}];", "obj.w = %s; "+P+" obj;", "arr[0] = %s; "+P+" arr;",
 		P+" \"p\" + %s;", P+" %s + \"p\";", P+" %s + 1;", P+" 1 + %s;", P+" %s + %s;",
+		bn.KwVar+" u = %s; u = u + 1; "+P+" u;", bn.KwVar+" u = %s; u = u - 1; "+P+" u;", bn.KwVar+" u = %s; u = u + 0; u = u + 0; "+P+" u;", bn.KwVar+" u = %s; u = u * 2; "+P+" u;",
+		bn.KwVar+" u = [%s]; u[0] = u[0] + 1; "+P+" u;", bn.KwVar+" u = {k: %s}; u.k = u.k + 1; "+P+" u.k;", bn.KwVar+" u = %s; "+bn.KwFor+" ("+bn.KwVar+" i = 0; i < 2; i = i + 1) u = u + 1; "+P+" u;",
 		P+" %s == %s;", P+" %s != %s;", P+" %s == 3;", P+" %s == \"abc\";", P+" [%s] == [%s];",
 		bn.BPush+"(arr, %s); "+P+" "+bn.BPush+"(arr, %s);",
 		P+" "+bn.BInput+"(%s);",
